@@ -197,6 +197,29 @@ class PF:
         return l2p, p2l, pl1
 
 
+def find_irreducible(rng, p, k, monic=True):
+    """a random irreducible polynomial of degree k over F_p as a coefficient list (lowest degree first)"""
+    while True:
+        cs = [rng.range(0, p - 1) for _ in range(k)] + [1 if monic else rng.range(1, p - 1)]
+        if cs[0] == 0:
+            continue
+        P = PF(p, k, sum(c * p ** i for i, c in enumerate(cs)))
+        if P.irreducible():
+            return cs
+
+
+def find_primitive(rng, p, k, mod):
+    """a random primitive element of F_p[X]/(mod) as a coefficient list (trailing zeros dropped)"""
+    P = PF(p, k, sum(c * p ** i for i, c in enumerate(mod)))
+    while True:
+        g = P.elt(rng.range(p, P.q - 1))
+        if P.order_is_full(g):
+            g = list(g)
+            while g and g[-1] == 0:
+                g.pop()
+            return g
+
+
 def hash3(v):
     h1 = h2 = 0
     for x in v:
@@ -461,7 +484,16 @@ def main(tier, replay=None):
     fields.append(FieldCase(64, "auto", 2, 2))
     fields.append(FieldCase(32, "auto", 2, 16))           # the int32_t table limit (maxCardinality)
     fields.append(FieldCase(32, "mod", 3, 3, mod=[2, 1, 0, 2]))     # non-monic modulus 2X^3 + X + 2
-    fields.append(FieldCase(64, "modgen", 5, 2, mod=[2, 1, 1], gen=[2, 1]))
+    # user-supplied modulus / generator: the constructors take them on trust (precondition: irreducible, primitive),
+    # so the check supplies irreducible moduli (monic and non-monic) and primitive generators found by the oracle
+    for (T, p, k, monic) in [(64, 5, 2, True), (32, 3, 4, True), (32, 2, 7, True), (64, 7, 2, False), (32, 11, 2, True),
+                             (64, 3, 5, False), (32, 13, 2, False), (64, 2, 9, True)][:(5 if tier == "quick" else 8)]:
+        m = find_irreducible(rng, p, k, monic)
+        fields.append(FieldCase(T, "modgen", p, k, mod=m, gen=find_primitive(rng, p, k, m)))
+        m = find_irreducible(rng, p, k, monic)
+        # coefficients given as arbitrary integers (negative / >= p): the constructor reduces them with Zp.init
+        m2 = [c + p * rng.range(-2, 2) for c in m]
+        fields.append(FieldCase(64 if T == 32 else 32, "mod", p, k, mod=m2))
     big = [FieldCase(64, "auto", 2, 20, full=False), FieldCase(64, "auto", 4194301, 1, full=False)]
     if tier == "thorough":
         for f in big:
@@ -618,7 +650,7 @@ def main(tier, replay=None):
                     r = None
                 if mg is not None:
                     ncorr += 1
-                    if mg != got:
+                    if mg.strip() != got.strip():
                         chk.broke("correspondence model/implementation differs on %s '%s': model=%s impl=%s" % (fname, il, mg, got))
                 if exp is None:
                     continue            # division by zero: unspecified, only the correspondence is compared
@@ -644,7 +676,7 @@ def main(tier, replay=None):
                 chk.count((fname, il))
                 if mg is not None:
                     ncorr += 1
-                    if mg != got:
+                    if mg.strip() != got.strip():
                         chk.broke("correspondence model/implementation differs on %s '%s': model=%s impl=%s" % (fname, il, mg, got))
                 exp = arr_spec(P, val, v, s, r, x_, y_)
                 site = "GFqDom array forms (for (size_t i=sz; --i;))"
@@ -667,7 +699,7 @@ def main(tier, replay=None):
                     acc = P.add(acc, P.mul(val(u), val(w)))
                 if mg is not None:
                     ncorr += 1
-                    if mg != got:
+                    if mg.strip() != got.strip():
                         chk.broke("correspondence model/implementation differs on %s '%s': model=%s impl=%s" % (fname, il, mg, got))
                 if not got.lstrip("-").isdigit() or val(int(got)) != acc:
                     chk.fail_input("GFqDom::dotprod", "sz=%s" % (sz if sz < 3 else "n"), case, P.num(acc), got)
